@@ -333,8 +333,35 @@ def r16d(ck, prog, functions=None, rule="R16d", all_exits=True):
     return n
 
 
+def r16f(ck, prog):
+    """count and allocation stay paired: whoever assigns msa.num_profiles a non-zero value (re)allocates the per-profile
+    arrays sip / nsip / plen in the same function - kalign_free_msa releases exactly num_profiles entries"""
+    n = 0
+    for F in prog.lib_functions():
+        for a in F.body.find("BinaryOperator"):
+            if a.d["op"] != "=":
+                continue
+            l = a.kids[0].strip()
+            if not (l.k == "MemberExpr" and l.d.get("field") == "num_profiles" and l.d.get("rec") == "msa"):
+                continue
+            n += 1
+            v = const_value(a.kids[1])
+            where = site(prog, a, "num_profiles")
+            allocs = {m.d["field"] for m in F.body.find("MemberExpr") if m.d.get("rec") == "msa" and m.d["field"] in ("sip", "nsip", "plen")
+                      and access_mode(m) == "write" and any(x.k == "CallExpr" and x.callee in ("malloc", "realloc") for x in m.up()[0].walk())}
+            ck.inst("R16f", where, "%s sets num_profiles = %s; allocates %s here" % (F.name, a.kids[1].text(), sorted(allocs)), prog.config)
+            if v == 0:
+                continue
+            if allocs != {"sip", "nsip", "plen"}:
+                ck.violation("R16f", "R16f/%s/num_profiles" % F.name, where,
+                             "%s changes msa->num_profiles without re-allocating sip/nsip/plen: the count no longer matches the arrays "
+                             "(kalign_free_msa then leaves entries allocated, or walks past them)" % F.name, prog.config)
+    ck.floor("R16f", n, 2, "writers of num_profiles")
+
+
 def run(ck, progs):
     describe(ck)
+    ck.rule("R16f", "msa.num_profiles is changed only together with a re-allocation of the sip / nsip / plen arrays it counts")
     for cfg, prog in progs.items():
         n = ck.attempt(r16a, ck, prog)
         ck.attempt(r16b, ck, prog)
@@ -346,6 +373,15 @@ def run(ck, progs):
             if v["rule"] == "R05c":
                 v["rule"] = "R16c"
                 v["key"] = v["key"].replace("R05c", "R16c")
+        ck.attempt(r16f, ck, prog)
+        b2 = len(ck.instances)
+        ck.attempt(c05.r05s, ck, prog)
+        for i in ck.instances[b2:]:
+            i["rule"] = "R16c"
+        for v in ck.violations:
+            if v["rule"] == "R05s":
+                v["rule"] = "R16c"
+                v["key"] = v["key"].replace("R05s", "R16c")
         n = ck.attempt(r16d, ck, prog)
         ck.floor("R16d", n, 12, "acquisitions in API-owned functions")
         cg = CallGraph(prog)
